@@ -45,7 +45,7 @@ pub fn prop() -> Prop {
         stub: &["transport", "store", "glue", "random source", "replaying / substituting adversary"],
         independent: &[],
         ref_sample: |_| 0,
-        required_probes: &["fillings_exhaustive", "sub_message", "sub_hiding_own", "sub_binding_other", "sub_add_participant", "sub_remove_participant", "sub_rename_participant", "sub_group_key", "sub_claimed_identifier", "sub_R_preserving", "sub_share_filed_under_other_identifier", "own_entry_swapped_with_another_signer", "wrong_nonces_refused", "missing_entry_refused", "identity_commitment_rejected"],
+        required_probes: &["refusals_through_other_entry_points", "fillings_exhaustive", "sub_message", "sub_hiding_own", "sub_binding_other", "sub_add_participant", "sub_remove_participant", "sub_rename_participant", "sub_group_key", "sub_claimed_identifier", "sub_R_preserving", "sub_share_filed_under_other_identifier", "own_entry_swapped_with_another_signer", "wrong_nonces_refused", "missing_entry_refused", "identity_commitment_rejected"],
         prepare: None,
     }
 }
@@ -447,6 +447,8 @@ fn exec_c<C: Suite>(scen: &Scenario) -> Exec {
             Ok(z) if z.serialize() == a.shares[&me].serialize() => {}
             other => return Exec::Violation(viol("C05.control_failed", format!("re-signing with the session's own nonces gave {other:?}")), rep),
         }
+        // every package the signer must refuse is kept, and offered once more through the other signing entry points below
+        let mut bad: Vec<(String, SigningPackage<C>, bool)> = vec![("nonces of session B with package A".into(), a.package.clone(), true)];
         // nonces of B with package A
         rep.evaluations += 1;
         if sign(&a.package, &b.nonces[&me]).is_ok() {
@@ -460,6 +462,7 @@ fn exec_c<C: Suite>(scen: &Scenario) -> Exec {
             cm.insert(me, SigningCommitments::<C>::new(*own.binding(), *own.hiding()));
             let pkg = SigningPackage::<C>::new(cm, a.package.message());
             rep.evaluations += 1;
+            bad.push(("own entry with hiding and binding swapped".into(), pkg.clone(), false));
             if sign(&pkg, &a.nonces[&me]).is_ok() {
                 return Exec::Violation(viol("C05.signer_accepted_wrong_nonces", "sign() accepted a package whose own entry has hiding and binding swapped".into()), rep);
             }
@@ -472,6 +475,7 @@ fn exec_c<C: Suite>(scen: &Scenario) -> Exec {
             cm.insert(me, new);
             let pkg = SigningPackage::<C>::new(cm, a.package.message());
             rep.evaluations += 1;
+            bad.push((format!("own {field} commitment taken from session B"), pkg.clone(), false));
             if sign(&pkg, &a.nonces[&me]).is_ok() {
                 return Exec::Violation(viol("C05.signer_accepted_wrong_nonces", format!("sign() accepted a package whose own {field} commitment differs from the nonces'")), rep);
             }
@@ -488,6 +492,7 @@ fn exec_c<C: Suite>(scen: &Scenario) -> Exec {
                 let pkg = SigningPackage::<C>::new(cm, a.package.message());
                 rep.evaluations += 1;
                 rep.probe("own_entry_swapped_with_another_signer");
+                bad.push(("own commitments filed under another signer, own slot holds that signer's".into(), pkg.clone(), false));
                 if sign(&pkg, &a.nonces[&me]).is_ok() {
                     return Exec::Violation(viol("C05.signer_accepted_wrong_nonces", "sign() accepted a package in which its own commitments are filed under another signer's identifier and its own slot holds that signer's commitments".into()), rep);
                 }
@@ -500,6 +505,7 @@ fn exec_c<C: Suite>(scen: &Scenario) -> Exec {
                 cm.insert(other, mine);
                 let pkg = SigningPackage::<C>::new(cm, a.package.message());
                 rep.evaluations += 1;
+                bad.push(("own slot holds the session-B entry, the session-A entry sits in another slot".into(), pkg.clone(), false));
                 if sign(&pkg, &a.nonces[&me]).is_ok() {
                     return Exec::Violation(viol("C05.signer_accepted_wrong_nonces", "sign() accepted a package whose own slot holds the session-B entry while the session-A entry sits in another signer's slot".into()), rep);
                 }
@@ -520,6 +526,38 @@ fn exec_c<C: Suite>(scen: &Scenario) -> Exec {
             return Exec::Violation(viol("C05.signer_signed_without_own_entry", "sign() produced a share although the signer's entry is missing".into()), rep);
         }
         rep.probe("missing_entry_refused");
+        bad.push(("own entry missing".into(), pkg.clone(), false));
+        // the same refusals through every other entry point a signer can be asked to sign with: the ciphersuite crate's own
+        // `round2::sign`, re-randomised signing (seed and explicit randomiser), Taproot signing with a tweak
+        {
+            let seed = sp.bytes(32);
+            let rz = frost_rerandomized::Randomizer::<C>::from_scalar(sc_random_nonzero::<C>(&mut sp));
+            type SignFn<'x, C> = Box<dyn Fn(&SigningPackage<C>, &SigningNonces<C>) -> Result<frost::round2::SignatureShare<C>, frost::Error<C>> + 'x>;
+            let mut entry_points: Vec<(&str, SignFn<C>)> = vec![
+                ("suite crate round2::sign", Box::new(|p, nn| C::w_sign(p, nn, &plain_kp))),
+                ("sign_with_randomizer_seed", Box::new(|p, nn| frost_rerandomized::sign_with_randomizer_seed(p, nn, &plain_kp, &seed))),
+                #[allow(deprecated)]
+                ("frost_rerandomized::sign", Box::new(|p, nn| frost_rerandomized::sign(p, nn, &plain_kp, rz))),
+            ];
+            if C::IS_TR {
+                entry_points.push(("sign_with_tweak(None)", Box::new(|p, nn| C::sign_with_tweak(p, nn, &plain_kp, None))));
+                entry_points.push(("sign_with_tweak(root)", Box::new(|p, nn| C::sign_with_tweak(p, nn, &plain_kp, Some(&[7u8; 32])))));
+            }
+            for (ename, f) in &entry_points {
+                rep.evaluations += 1;
+                if let Err(e) = f(&a.package, &a.nonces[&me]) {
+                    return Exec::Violation(viol("C05.control_failed", format!("{ename} refuses the session's own package and nonces: {e:?}")), rep);
+                }
+                for (what, pkg, use_b) in &bad {
+                    rep.evaluations += 1;
+                    let nn = if *use_b { &b.nonces[&me] } else { &a.nonces[&me] };
+                    if f(pkg, nn).is_ok() {
+                        return Exec::Violation(viol("C05.signer_accepted_wrong_nonces", format!("{ename} produced a share for a package it must refuse: {what}")), rep);
+                    }
+                }
+                rep.probe("refusals_through_other_entry_points");
+            }
+        }
 
         // ---- 4. identity commitment (built publicly from a zero nonce) -------------------------
         let zero_nonce = match Nonce::<C>::deserialize(&sc_bytes::<C>(&zero::<C>())) {
